@@ -358,4 +358,350 @@ theorem units_duration (lt : Rat) (idx : List Int) (f l : Int) (hf : idx.head? =
 
 example : duration (1/4) [3, 4, 7] = some (1 : Rat) := by decide +kernel
 
+/-! ## Editing: interpolation, splitting, merging, filtering keep tracks well formed -/
+
+theorem trackOf_eq (peaks : List (List Rat)) (t : List Node) (h : ∀ n ∈ t, (peakAt peaks n).isSome) :
+    ∃ cs : List Rat, cs.length = t.length ∧ trackOf peaks t = (t.map fun n => (n.1 : Int)).zip cs ∧
+      ∀ c ∈ cs, ∃ n ∈ t, peakAt peaks n = some c := by
+  induction t with
+  | nil => exact ⟨[], rfl, rfl, by simp⟩
+  | cons n t ih =>
+    obtain ⟨cs, hl, he, hc⟩ := ih (fun m hm => h m (by simp [hm]))
+    obtain ⟨c, hn⟩ := Option.isSome_iff_exists.1 (h n (by simp))
+    refine ⟨c :: cs, by simp [hl], ?_, ?_⟩
+    · unfold trackOf at he ⊢
+      simp only [List.filterMap_cons, hn, Option.map_some, List.map_cons, List.zip_cons_cons, he]
+    · intro c' hc'
+      rcases List.mem_cons.1 hc' with rfl | hc'
+      · exact ⟨n, by simp, hn⟩
+      · obtain ⟨m, hm, hmc⟩ := hc c' hc'
+        exact ⟨m, by simp [hm], hmc⟩
+
+/-- **What the greedy tracker returns is well formed**: the (line index, coordinate) track of every list of
+    nodes the linker returns is non-empty, has strictly increasing line indices inside the kymograph and, when
+    every detected peak lies in `[lo, hi]` (the image), coordinates in `[lo, hi]`. -/
+theorem link_tracks_wellformed (pr : Params Rat α κ) (peaks : List (List Rat)) (lo hi : Rat)
+    (hb : ∀ fr ∈ peaks, ∀ c ∈ fr, lo ≤ c ∧ c ≤ hi) :
+    ∀ t ∈ link pr peaks, WellFormed (peaks.length : Int) lo hi (trackOf peaks t) := by
+  intro t ht
+  have hsome : ∀ n ∈ t, (peakAt peaks n).isSome := fun n hn =>
+    ((link_partition pr peaks).2 n).1 (List.mem_flatten.2 ⟨t, ht, hn⟩)
+  obtain ⟨cs, hl, he, hc⟩ := trackOf_eq peaks t hsome
+  have hne := track_nonempty pr peaks t ht
+  have hinc := track_strictly_increasing pr peaks t ht
+  have hin := track_inside pr peaks t ht
+  refine ⟨?_, ?_, ?_⟩
+  · rw [he]
+    intro h0
+    have := congrArg List.length h0
+    simp [hl] at this
+    exact hne this
+  · unfold Inc timesOf
+    rw [he, List.map_fst_zip (by simp [hl]), List.pairwise_map]
+    rw [List.pairwise_map] at hinc
+    exact hinc.imp (fun {a b} hab => by exact_mod_cast hab)
+  · intro p hp
+    rw [he] at hp
+    have h1 := (List.of_mem_zip hp).1
+    have h2 := (List.of_mem_zip hp).2
+    obtain ⟨n, hn, hn1⟩ := List.mem_map.1 h1
+    obtain ⟨m, hm, hmc⟩ := hc p.2 h2
+    have hfr : p.2 ∈ peaks.getD m.1 [] := List.mem_of_getElem? hmc
+    have hmin := (hin m hm).1
+    have hfr' : peaks.getD m.1 [] ∈ peaks := by
+      rw [List.getD_eq_getElem?_getD, List.getElem?_eq_getElem hmin]; exact List.getElem_mem hmin
+    have := hb _ hfr' _ hfr
+    have hnl := (hin n hn).1
+    refine ⟨by rw [← hn1]; omega, by rw [← hn1]; exact_mod_cast hnl, this.1, this.2⟩
+
+-- non-vacuity: a two-line detection list inside [0, 4]; the linker's tracks as (line, coordinate) lists
+example : (link (⟨fun _ x _ y => if x = y then some (0 : Nat) else none, fun a b => decide (a > b), fun p _ => p,
+      fun a b => decide (a ≤ b), 1⟩ : Params Rat Nat Rat) [[1, 3], [3]]).map (trackOf [[1, 3], [3]])
+    = [[(0, 1)], [(0, 3), (1, 3)]] := by decide +kernel
+
+/-- a well-formed track used in the `example`s below: lines 0, 2, 5 of a 6-line kymograph, pixels in [0, 4] -/
+theorem wellFormed_example : WellFormed 6 0 4 [(0, 1), (2, 2), (5, 0)] := by
+  refine ⟨by simp, by simp [Inc, timesOf], ?_⟩
+  intro p hp
+  simp only [List.mem_cons, List.not_mem_nil, or_false] at hp
+  rcases hp with rfl | rfl | rfl <;> norm_num
+
+/-- **Interpolation covers every line from the first to the last exactly once** (hence strictly increasing
+    line indices without a gap, the same first and last line). -/
+theorem interpolate_times (tr : Track) (h : Inc tr) (f l : Int) (hf : (timesOf tr).head? = some f)
+    (hl : (timesOf tr).getLast? = some l) :
+    timesOf (interpolate tr) = (List.range (l - f + 1).toNat).map fun (k : Nat) => f + (k : Int) :=
+  interpolate_times_lem tr h f l hf hl
+
+/-- **Interpolation keeps a track well formed**: non-empty, strictly increasing line indices inside the
+    kymograph, coordinates inside the same interval (`np.interp` is a convex combination of its neighbours). -/
+theorem interpolate_wellformed (n : Int) (lo hi : Rat) (tr : Track) (h : WellFormed n lo hi tr) :
+    WellFormed n lo hi (interpolate tr) := interpolate_wf n lo hi tr h
+
+/-- interpolation keeps every tracked point as it is -/
+theorem interpolate_keeps_points (tr : Track) (h : Inc tr) : ∀ q ∈ tr, q ∈ interpolate tr := interpolate_keeps tr h
+
+/-- interpolating twice is interpolating once -/
+theorem interpolate_idempotent (tr : Track) (h : Inc tr) : interpolate (interpolate tr) = interpolate tr :=
+  interpolate_idem tr h
+
+example : interpolate [(0, 1), (2, 2), (5, 0)] = [(0, 1), (1, 3/2), (2, 2), (3, 4/3), (4, 2/3), (5, 0)] := by
+  decide +kernel
+example : Inc [(0, 1), (2, 2), (5, 0)] := wellFormed_example.2.1
+-- the hypothesis is needed: on line indices that are not increasing `np.interp` does not return the points
+example : ¬ ((3, 7) ∈ interpolate [(3, 7), (1, 5)]) := by decide +kernel
+
+/-- **`_split`**: the two halves are non-empty and concatenate to the track, the first has `clip(node, 0, len)`
+    points; it is refused exactly when one half would be empty. -/
+theorem split_spec (tr : Track) (node : Int) :
+    (∀ a b, splitAt tr node = .ok (a, b) →
+      a ++ b = tr ∧ a ≠ [] ∧ b ≠ [] ∧ (a.length : Int) = min (max node 0) (tr.length : Int)) ∧
+    ((∃ e, splitAt tr node = .error e) ↔ (node ≤ 0 ∨ (tr.length : Int) ≤ node)) :=
+  ⟨fun a b h => splitAt_ok tr node a b h, splitAt_refused tr node⟩
+
+/-- **Splitting keeps every track of the group well formed.** -/
+theorem split_wellformed (n : Int) (lo hi : Rat) (g : List Track) (i : Nat) (node minLen : Int) (g' : List Track)
+    (hg : ∀ t ∈ g, WellFormed n lo hi t) (h : splitTrack g i node minLen = .ok g') :
+    ∀ t ∈ g', WellFormed n lo hi t := splitTrack_wf g i node minLen g' hg h
+
+/-- with `min_length ≤ 1` a split neither loses nor invents a point -/
+theorem split_conserves_points (g : List Track) (i : Nat) (node minLen : Int) (g' : List Track) (hm : minLen ≤ 1)
+    (h : splitTrack g i node minLen = .ok g') : g'.flatten.Perm g.flatten := splitTrack_perm g i node minLen g' hm h
+
+example : splitTrack [[(0, 1), (2, 2), (5, 0)], [(1, 3)]] 0 1 1 = .ok [[(1, 3)], [(0, 1)], [(2, 2), (5, 0)]] := by
+  decide +kernel
+-- `min_length` above one drops the short half: the hypothesis of `split_conserves_points` is needed
+example : splitTrack [[(0, 1), (2, 2), (5, 0)], [(1, 3)]] 0 1 2 = .ok [[(1, 3)], [(2, 2), (5, 0)]] := by
+  decide +kernel
+
+/-- **`_merge_tracks`**: a merge is made only between two nodes on different lines; the earlier node `ps` and the
+    later node `pe` become neighbours: the new track is the starting track up to and including `ps` followed by
+    the ending track from `pe` on; it replaces the starting track and the ending track leaves the group. -/
+theorem merge_spec (g : List Track) (i sn j en : Nat) (g' : List Track) (h : mergeTracks g i sn j en = .ok g') :
+    ∃ a b ps pe, g[i]? = some a ∧ g[j]? = some b ∧ a[sn]? = some ps ∧ b[en]? = some pe ∧
+      ((ps.1 < pe.1 ∧ g' = (if i = j then g.set i (a.take sn ++ ps :: pe :: b.drop (en + 1))
+          else (g.set i (a.take sn ++ ps :: pe :: b.drop (en + 1))).eraseIdx j)) ∨
+       (pe.1 < ps.1 ∧ g' = (if j = i then g.set j (b.take en ++ pe :: ps :: a.drop (sn + 1))
+          else (g.set j (b.take en ++ pe :: ps :: a.drop (sn + 1))).eraseIdx i))) := by
+  obtain ⟨a, b, ps, pe, ha, hb, hs, he, hc⟩ := mergeTracks_ok g i sn j en g' h
+  refine ⟨a, b, ps, pe, ha, hb, hs, he, ?_⟩
+  rw [← merge_shape a b sn en ps pe hs he, ← merge_shape b a en sn pe ps he hs]
+  exact hc
+
+/-- **Merging keeps every track of the group well formed** (in particular the merged track has strictly
+    increasing line indices: everything kept of the starting track is at or before `ps`, everything kept of the
+    ending track at or after `pe`). -/
+theorem merge_wellformed (n : Int) (lo hi : Rat) (g : List Track) (i sn j en : Nat) (g' : List Track)
+    (hg : ∀ t ∈ g, WellFormed n lo hi t) (h : mergeTracks g i sn j en = .ok g') :
+    ∀ t ∈ g', WellFormed n lo hi t := mergeTracks_wf g i sn j en g' hg h
+
+example : mergeTracks [[(0, 1), (2, 2), (5, 0)], [(1, 3), (4, 4)]] 0 1 1 0 = .ok [[(1, 3), (2, 2), (5, 0)]] := by
+  decide +kernel
+example : mergeTracks [[(0, 1), (2, 2), (5, 0)], [(1, 3), (4, 4)]] 0 0 1 1 = .ok [[(0, 1), (4, 4)]] := by
+  decide +kernel
+example : mergeTracks [[(0, 1), (2, 2), (5, 0)], [(2, 3)]] 0 1 1 0 = .error "ValueError" := by decide +kernel
+
+/-- **`filter_tracks`** keeps exactly the tracks with at least `minimum_length` points whose duration
+    `line_time · (last − first line)` is at least `minimum_duration`, each as it is, in their order. -/
+theorem filter_spec (minLen : Int) (minDur : Rat) (g : List (Rat × Track)) :
+    (filterTracks minLen minDur g).Sublist g ∧
+    (∀ x, x ∈ filterTracks minLen minDur g ↔ x ∈ g ∧ keepTrack minLen minDur x.1 x.2 = true) ∧
+    (∀ lt tr f l, (timesOf tr).head? = some f → (timesOf tr).getLast? = some l →
+      (keepTrack minLen minDur lt tr = true ↔
+        minLen ≤ (tr.length : Int) ∧ minDur ≤ lt * ((l - f : Int) : Rat))) :=
+  ⟨filterTracks_sublist minLen minDur g, filterTracks_mem minLen minDur g,
+    fun lt tr f l hf hl => keepTrack_iff minLen minDur lt tr f l hf hl⟩
+
+/-- filtering twice with the same criteria is filtering once -/
+theorem filter_idempotent (minLen : Int) (minDur : Rat) (g : List (Rat × Track)) :
+    filterTracks minLen minDur (filterTracks minLen minDur g) = filterTracks minLen minDur g :=
+  filterTracks_idem minLen minDur g
+
+example : (filterTracks 2 (5/4) [(1/2, [(0, 1), (2, 2), (5, 0)]), (1/2, [(1, 3)]), (1/2, [(1, 3), (3, 3)])]).map (·.2)
+    = [[(0, 1), (2, 2), (5, 0)]] := by decide +kernel
+
+/-- **Every editing step keeps a group well formed.** -/
+theorem edit_step_wellformed (n : Int) (lo hi lt : Rat) (g : List Track) (op : EditOp) (g' : List Track)
+    (hg : ∀ t ∈ g, WellFormed n lo hi t) (h : applyOp lt g op = .ok g') : ∀ t ∈ g', WellFormed n lo hi t :=
+  applyOp_wf lt g op g' hg h
+
+/-- **Every program of interpolations, splits, merges and filters keeps a group well formed.** -/
+theorem edit_program_wellformed (n : Int) (lo hi lt : Rat) (ops : List EditOp) (g : List Track)
+    (hg : ∀ t ∈ g, WellFormed n lo hi t) : ∀ t ∈ runProgram lt ops g, WellFormed n lo hi t :=
+  runProgram_wf lt ops g hg
+
+/-- **Tracking followed by any editing program**: every track is non-empty, has strictly increasing line
+    indices inside the kymograph and coordinates inside the interval that holds the detections. -/
+theorem tracked_then_edited_wellformed (pr : Params Rat α κ) (peaks : List (List Rat)) (lo hi lt : Rat)
+    (hb : ∀ fr ∈ peaks, ∀ c ∈ fr, lo ≤ c ∧ c ≤ hi) (ops : List EditOp) :
+    ∀ t ∈ runProgram lt ops ((link pr peaks).map (trackOf peaks)), WellFormed (peaks.length : Int) lo hi t := by
+  apply runProgram_wf
+  intro t ht
+  obtain ⟨nodes, hn, rfl⟩ := List.mem_map.1 ht
+  exact link_tracks_wellformed pr peaks lo hi hb nodes hn
+
+example : runProgram (1/2) [.interpolate [], .split 0 2 1, .merge 0 1 1 0, .filter 2 1]
+    [[(0, 1), (2, 2), (5, 0)], [(1, 3)]] = [[(2, 2), (3, 4/3), (4, 2/3), (5, 0)]] := by decide +kernel
+
+
+/-! ## Centroid refinement (`refine_peak_based_on_moment`, no bias correction): positions inside the image -/
+
+/-- **The clamps**: whatever the image and the starting pixels, every point ends the pixel walk on a pixel of
+    the image (`0 ≤ c < n`). -/
+theorem refine_pixels_inside (eps : Rat) (cols : List (List Int)) (h : Nat) (n : Int) (hn : 1 ≤ n) (fuel : Nat)
+    (pts pts' : List (Int × Nat)) (hr : refineLoop eps cols h n fuel pts = some pts') :
+    ∀ p ∈ pts', 0 ≤ p.1 ∧ p.1 < n := refineLoop_range eps cols h n hn fuel pts pts' hr
+
+/-- **Refined positions lie inside the image**: on an image of non-negative photon counts, for points that start
+    on pixels of the image, every refined coordinate `c + offset` is within half a pixel of a pixel `c` of the
+    image — hence in `[−½, n − ½]` — the reported amplitude is the window sum `m0` around that pixel, and the
+    scan line of every point is unchanged. (At the first and last pixel the zero padding makes the offset point
+    inwards, so the clamps are never what stops the walk.) -/
+theorem refine_positions_inside (eps : Rat) (heps : 0 < eps) (cols : List (List Int)) (h : Nat) (n : Int) (hn : 1 ≤ n)
+    (hi : ImageOK cols n) (pts : List (Int × Nat)) (hin : ∀ p ∈ pts, 0 ≤ p.1 ∧ p.1 < n)
+    (out : List (Rat × Nat × Int)) (hr : refineMoment eps cols h n pts = .ok out) :
+    ∀ q ∈ out, (-(1/2 : Rat) ≤ q.1 ∧ q.1 ≤ (n : Rat) - 1/2) ∧
+      ∃ c : Int, 0 ≤ c ∧ c < n ∧ (c : Rat) - 1/2 ≤ q.1 ∧ q.1 ≤ (c : Rat) + 1/2 ∧
+        q.2.2 = m0At (cols.getD q.2.1 []) h c := by
+  unfold refineMoment at hr
+  split at hr
+  · cases hr
+  · split at hr
+    · cases hr
+    · rename_i ps hps
+      injection hr with hr
+      subst hr
+      intro q hq
+      obtain ⟨p, hp, rfl⟩ := List.mem_map.1 hq
+      obtain ⟨⟨h0, h1⟩, h2, h3⟩ := refineLoop_settled eps heps cols h n hn hi 100 pts ps hin hps p hp
+      have h0' : (0 : Rat) ≤ (p.1 : Rat) := by exact_mod_cast h0
+      have h1' : (p.1 : Rat) ≤ (n : Rat) - 1 := by
+        have : p.1 ≤ n - 1 := by omega
+        exact_mod_cast this
+      refine ⟨⟨by simp only; linarith, by simp only; linarith⟩, p.1, h0, h1, by simp only; linarith, by simp only; linarith, rfl⟩
+
+/-- on a non-negative image the refined coordinates even lie between the centres of the first and the last pixel -/
+theorem refine_positions_between_pixel_centres (eps : Rat) (heps : 0 < eps) (cols : List (List Int)) (h : Nat) (n : Int)
+    (hn : 1 ≤ n) (hi : ImageOK cols n) (pts : List (Int × Nat)) (hin : ∀ p ∈ pts, 0 ≤ p.1 ∧ p.1 < n)
+    (out : List (Rat × Nat × Int)) (hr : refineMoment eps cols h n pts = .ok out) :
+    ∀ q ∈ out, (0 : Rat) ≤ q.1 ∧ q.1 ≤ (n : Rat) - 1 := by
+  unfold refineMoment at hr
+  split at hr
+  · cases hr
+  · split at hr
+    · cases hr
+    · rename_i ps hps
+      injection hr with hr
+      subst hr
+      intro q hq
+      obtain ⟨p, hp, rfl⟩ := List.mem_map.1 hq
+      exact refineLoop_position eps heps cols h n hn hi 100 pts ps hin hps p hp
+
+-- non-vacuity: a 5-pixel, 2-line image; two points that walk to the bright pixels
+example : ImageOK [[0, 1, 9, 1, 0], [0, 0, 2, 9, 1]] 5 := by
+  intro col hcol
+  simp only [List.mem_cons, List.not_mem_nil, or_false] at hcol
+  rcases hcol with rfl | rfl <;> exact ⟨by decide, by decide⟩
+example : refineMoment (1/10000000) [[0, 1, 9, 1, 0], [0, 0, 2, 9, 1]] 1 5 [(0, 0), (4, 1)]
+    = .ok [(2, 0, 11), (3 + (-10000000 : Rat) / 120000001, 1, 12)] := by decide +kernel
+-- the hypothesis on the image is needed: with a negative pixel the walk is stopped by the clamp and the refined
+-- coordinate leaves the image
+example : refineMoment (1/10) [[5, -4, 0]] 1 3 [(0, 0)] = .ok [((-40 : Rat) / 11, 0, 1)] := by decide +kernel
+
+
+/-! ## `merge_close_peaks`: which detections reach the linker -/
+
+/-- merging close peaks only removes detections: what is left of a frame is a sub-list of it, in order -/
+theorem merge_close_sublist (d : Rat) (fr : List (Rat × Rat)) : (mergeCloseFrame d fr).Sublist fr :=
+  mergeCloseFrame_sublist d fr
+
+/-- **A peak is discarded only next to a close peak that is at least as bright**: every masked index `k` has another
+    index `k'` of the frame whose coordinate is closer than the minimum distance and whose amplitude is not lower. -/
+theorem merge_close_removed_spec (d : Rat) (fr : List (Rat × Rat)) :
+    ∀ k ∈ mergeCloseRemoved d fr, ∃ k' p q, k' ≠ k ∧ fr[k]? = some p ∧ fr[k']? = some q ∧
+      absRat (q.1 - p.1) < d ∧ p.2 ≤ q.2 := by
+  intro k hk
+  unfold mergeCloseRemoved at hk
+  simp only [List.mem_filterMap] at hk
+  obtain ⟨r, ⟨x, hx, hr⟩, hrk⟩ := hk
+  have hx' := List.mem_zipIdx_iff_getElem?.1 hx
+  rw [List.getElem?_zip_eq_some] at hx'
+  obtain ⟨ha, hb⟩ := hx'
+  rw [List.getElem?_tail] at hb
+  obtain ⟨ka, hka, hfa⟩ := sorted_get fr x.2 x.1.1 ha
+  obtain ⟨kb, hkb, hfb⟩ := sorted_get fr (x.2 + 1) x.1.2 hb
+  have hne : ka ≠ kb := by
+    intro he
+    have hnd : (argsort (fun (a b : Rat) => decide (a ≤ b)) (fr.map (·.1))).Nodup :=
+      (argsort_perm _ _).nodup_iff.2 List.nodup_range
+    have h1 := List.getElem?_eq_some_iff.1 hka
+    have h2 := List.getElem?_eq_some_iff.1 hkb
+    obtain ⟨l1, e1⟩ := h1
+    obtain ⟨l2, e2⟩ := h2
+    have := (List.getElem_inj hnd).1 (e1.trans (he.trans e2.symm))
+    omega
+  split at hr
+  · rename_i hclose
+    injection hr with hr
+    split at hr
+    · rename_i hlow
+      -- the right neighbour is strictly lower: it goes
+      subst hr
+      rw [hkb] at hrk
+      injection hrk with hrk
+      subst hrk
+      refine ⟨ka, x.1.2, x.1.1, hne, hfb, hfa, ?_, hlow.le⟩
+      unfold absRat at hclose ⊢
+      split at hclose <;> split <;> linarith
+    · rename_i hlow
+      subst hr
+      rw [hka] at hrk
+      injection hrk with hrk
+      subst hrk
+      exact ⟨kb, x.1.1, x.1.2, fun h => hne h.symm, hfa, hfb, hclose, not_lt.1 hlow⟩
+  · cases hr
+
+-- three peaks at 1, 2, 5 with amplitudes 3, 7, 4 and minimum distance 2: the dimmer one of the close pair goes
+example : mergeCloseFrame 2 [(1, 3), (2, 7), (5, 4)] = [(2, 7), (5, 4)] := by decide +kernel
+-- one pass only: of three peaks one pixel apart with rising amplitudes the first two go (each is lower than its right neighbour)
+example : mergeCloseFrame 2 [(1, 3), (2, 4), (3, 5)] = [(3, 5)] := by decide +kernel
+-- the frame need not be sorted by coordinate
+example : mergeCloseFrame 2 [(5, 4), (2, 7), (1, 3)] = [(5, 4), (2, 7)] := by decide +kernel
+
+-- `sum_window_spec` needs `c ≥ −½`: below, `int()` truncates toward zero and the window is centred on pixel 0
+-- although the pixel containing the point is −1 (outside the image; no tracked point lies there)
+example : sumWindow [1, 2, 4] 0 (-3/4) (1/2) = 1 := by decide +kernel
+
+
+/-! ## Refined tracks, and programs that refine and edit -/
+
+/-- **`refine_tracks_centroid(…, bias_correction=False)` keeps tracks well formed**: on a non-negative image,
+    tracks with coordinates in `[0, n − 1]` come out with the line indices of their interpolation (one point per
+    line from first to last) and refined coordinates in `[0, n − 1]` again. -/
+theorem refine_tracks_wellformed (eps : Rat) (heps : 0 < eps) (cols : List (List Int)) (h : Nat) (n : Int) (hn : 1 ≤ n)
+    (hi : ImageOK cols n) (g g' : List Track)
+    (hg : ∀ t ∈ g, WellFormed (cols.length : Int) 0 ((n : Rat) - 1) t)
+    (hr : refineTracks eps cols h n g = .ok g') :
+    g'.map timesOf = (g.map interpolate).map timesOf ∧
+      ∀ t ∈ g', WellFormed (cols.length : Int) 0 ((n : Rat) - 1) t :=
+  refineTracks_wf eps heps cols h n hn hi g g' hg hr
+
+/-- **Every program of refinements (no bias correction), interpolations, splits, merges and filters keeps a
+    group well formed**, coordinates in `[0, n − 1]`. -/
+theorem refine_program_wellformed (eps : Rat) (heps : 0 < eps) (lt : Rat) (cols : List (List Int)) (n : Int) (hn : 1 ≤ n)
+    (hi : ImageOK cols n) (sts : List Step) (g : List Track)
+    (hg : ∀ t ∈ g, WellFormed (cols.length : Int) 0 ((n : Rat) - 1) t) :
+    ∀ t ∈ runSteps eps lt cols n sts g, WellFormed (cols.length : Int) 0 ((n : Rat) - 1) t :=
+  runSteps_wf eps heps lt cols n hn hi sts g hg
+
+example : runSteps (1/10000000) (1/2) [[0, 1, 9, 1, 0], [0, 0, 2, 9, 1], [0, 0, 1, 2, 8]] 5
+    [.refine 1, .edit (.split 0 1 1), .edit (.merge 0 0 1 1)] [[(0, 1), (2, 3)]]
+    = [[(0, 2), (2, (380000004 : Rat) / 100000001)]] := by decide +kernel
+example : WellFormed (([[0, 1, 9, 1, 0], [0, 0, 2, 9, 1], [0, 0, 1, 2, 8]] : List (List Int)).length : Int) 0 ((5 : Int) - 1 : Rat)
+    [(0, 1), (2, 3)] := by
+  refine ⟨by simp, by simp [Inc, timesOf], ?_⟩
+  intro p hp
+  simp only [List.mem_cons, List.not_mem_nil, or_false] at hp
+  rcases hp with rfl | rfl <;> norm_num
+
 end Verif.C08
